@@ -9,6 +9,10 @@ COLL_METHODS = {
     "alloc::vec::Vec::push": "+",
     "alloc::vec::Vec::insert": "+",
     "alloc::vec::Vec::extend": "+",
+    "<alloc::vec::Vec<T, A> as core::iter::traits::collect::Extend<T>>::extend": "+",
+    "<alloc::vec::Vec<T, A> as core::iter::traits::collect::Extend<&'a T>>::extend": "+",
+    "<alloc::collections::vec_deque::VecDeque<T, A> as core::iter::traits::collect::Extend<T>>::extend": "+",
+    "<smallvec::SmallVec<A> as core::iter::traits::collect::Extend<<A as smallvec::Array>::Item>>::extend": "+",
     "alloc::vec::Vec::pop": "-",
     "alloc::vec::Vec::remove": "-",
     "alloc::vec::Vec::swap_remove": "-",
